@@ -64,7 +64,7 @@ CLAIMED = {
  "C04": dict(cat="other", ref="DESIGN.md 4/C04",
    text="Contracts of every step of NP2Converter.process over the ghost file system: _prepare_files_NP24 (no-op on repeat, outputs never alias the input, channel lists = where(shank==s)+sync), check_NP24 (every window compared, flag only after the loop; the whole function through the interpreter: every exceptional way out leaves check_completed unset), _prepare_files_NP21 (forced / first run starts the LF output empty), "
         "epilogue order (original unlinked only after check_NP24 returned normally with both flags), delete_NP24 guard, compress_NP24/NP21 through C02's compress_file incl. failures, early exits, init_params reset.",
-   note="Histories are handled inductively (one guarded unlink of the original); interruptions = exceptions of external calls; real run histories on files (first/repeat/overwrite/corrupted split/failed verification then delete_NP24()/NP2.1/NP1) are a bounded stand-in. Known finding F-C04-1 (partial folders).",
+   note="Histories are handled inductively (one guarded unlink of the original); interruptions = exceptions of external calls; real run histories on files (first/repeat/overwrite/corrupted split/failed verification then delete_NP24()/NP2.1/NP1) are a bounded stand-in. F-C04-1 (retry after partial folder creation) was repaired.",
    tech="AST->z3 VC generation over a ghost file system, effect-log ordering obligations (deductive) + bounded histories"),
  "C13": dict(cat="other", ref="DESIGN.md 4/C13",
    text="extract_wfs_array proved with a loop invariant over the output stack for any number of spikes / channels / samples: wfs[i,c,t] == traces[neighbours[peak_i,c], sample_i - trough + t], padding neighbours read the NaN row, every read in bounds; "
